@@ -261,8 +261,14 @@ class Run:
         # what the harness (or the library under test, which may write to the process's stderr) prints goes to a file: a pipe nobody
         # reads while TLC is still feeding cases would fill up and stop the harness
         logp = res[:-5] + ".out"
+        env = dict(os.environ)
+        racelog = None
+        if race:
+            racelog = os.path.join(self.scratch, "race-%d" % self.n_tlc)
+            env["GORACE"] = "exitcode=0 log_path=%s history_size=3" % racelog
         p = subprocess.Popen([exe] + args + ["--result", res], stdin=subprocess.PIPE, stdout=open(logp, "w"),
-                             stderr=subprocess.STDOUT, text=True, bufsize=1 << 20)
+                             stderr=subprocess.STDOUT, text=True, bufsize=1 << 20, env=env)
+        p._racelog = racelog
         p._log = logp
         p._result = res
         p._args = args
@@ -286,6 +292,8 @@ class Run:
             out = ""
         if p.returncode != 0 or not os.path.exists(p._result):
             raise Inconclusive("harness failed in %s (exit %s): %s" % (stage, p.returncode, (out or "")[-3000:]))
+        if getattr(p, "_racelog", None):
+            self.race_reports(p._racelog, stage)
         s = json.load(open(p._result))
         self.absorb(s, stage, time.time() - p._t0)
         return s
@@ -308,12 +316,27 @@ class Run:
         except subprocess.TimeoutExpired:
             raise Inconclusive("harness timed out in %s" % stage)
         if p.returncode != 0 or not os.path.exists(res):
+            if self.died_in_library(p.stdout or "", stage):
+                return {}
             raise Inconclusive("harness failed in %s (exit %s): %s" % (stage, p.returncode, (p.stdout or "")[-3000:]))
         s = json.load(open(res))
         self.absorb(s, stage, time.time() - t)
         if racelog:
             self.race_reports(racelog, stage)
         return s
+
+    def died_in_library(self, out, stage):
+        """The harness process was killed by a panic in a goroutine that package bcl itself started (the drivers recover panics in
+        their own goroutines; one in the library's goroutines takes the caller's process down): that is an outcome, not a failure of
+        the driver."""
+        m = re.search(r"^panic: (.*)$", out, re.M)
+        if not m or not re.search(r"created by github\.com/wkhere/bcl\.", out):
+            return False
+        fn = re.search(r"github\.com/wkhere/bcl\.([\w\.\(\)\*]+)\(", out[m.start():])
+        self.violations.append(dict(why="the process died: panic in a goroutine started by the library (%s)" % m.group(1)[:200],
+                                    shape="died:" + (fn.group(1) if fn else "?"), case=dict(fam="process", stage=stage),
+                                    observed=out[m.start():m.start() + 3000], confirmed=True, stage=stage))
+        return True
 
     def race_reports(self, prefix, stage):
         """The Go race detector is an external observer of all memory: each report with a frame of package bcl is an event that
